@@ -268,7 +268,7 @@ def run_app(sc, choices=None, world_hook=None):
 def _run_with_rel(app, rf, rel, w):
     ret = app.run_forever(**rf)
     rel.dispatch()
-    return ret if rel.final is None else rel.final
+    return ret
 
 
 class _DynListener(dict):
